@@ -117,7 +117,7 @@ func apply(seed *Seed, seq []*Rule, langs []string, language string, debug bool)
 	}
 	files := make([]string, len(seq))
 	for i, r := range seq {
-		files[i] = r.files[langs[i]]
+		files[i] = r.file(langs[i])
 	}
 	transitions.Add(1)
 	var out []ast.Builder
@@ -200,7 +200,7 @@ func (e *explorer) detail(seed *Seed, seq []*Rule) map[string]any {
 	langs, _ := phases(seq)
 	var files []map[string]string
 	for i, r := range seq {
-		files = append(files, map[string]string{"id": r.ID, "language": langs[i], "yaml": r.yaml[langs[i]]})
+		files = append(files, map[string]string{"id": r.ID, "language": langs[i], "yaml": r.text(langs[i])})
 	}
 	return map[string]any{"seed": seed.Name, "rules": seqIDs(seq), "files": files, "apply_language": "go"}
 }
@@ -433,6 +433,18 @@ func main() {
 	debug.SetGCPercent(200)
 	debug.SetMemoryLimit(4 << 30) // soft limit: collect harder rather than grow (other checks share the machine)
 	seeds := mySeeds()
+	if only := os.Getenv("VERIF_C17_SEEDS"); only != "" {
+		// debugging aid: explore the named seeds only (never set by verif.sh)
+		var kept []*Seed
+		for _, sd := range seeds {
+			for _, n := range strings.Split(only, ",") {
+				if n == sd.Name {
+					kept = append(kept, sd)
+				}
+			}
+		}
+		seeds = kept
+	}
 	for _, s := range seeds {
 		s.Pristine = s.Build()
 		s.Init = apply(s, nil, nil, "go", false)
@@ -531,11 +543,24 @@ func main() {
 	// ---- language scenarios (depth 1, canonical rules) ------------------------
 	e.languageScenarios(seeds)
 
+	// ---- pipeline layer: depth 1 of every seed seen through a language's passes --
+	pipeLangs := []string{"go", "java", "python", "typescript"}
+	if r.Thorough() {
+		pipeLangs = append(pipeLangs, "php")
+	}
+	pipe, _ := e.pipelineLayer(seeds, pipeLangs)
+
 	// ---- depth 2: every distinct depth-1 state × the second-step alphabet -----
 	depth2, dynamicJobs := 0, 0
 	if !e.timedOut.Load() {
 		jobs = nil
-		for _, s := range seeds { // one seed at a time bounds the memory
+		// cheapest seeds first: when the deadline cuts the run short (loaded
+		// machine) as many seeds as possible are complete
+		order := append([]*Seed{}, seeds...)
+		sort.SliceStable(order, func(i, j int) bool {
+			return len(level1[order[i]])*len(order[i].A2) < len(level1[order[j]])*len(order[j].A2)
+		})
+		for _, s := range order { // one seed at a time bounds the memory
 			if e.timedOut.Load() {
 				exhaustive = false
 				break
@@ -678,8 +703,9 @@ func main() {
 		"contracts_skipped_ambiguous_split":      e.skipped,
 		"revived_empty_builders_tolerated":       e.revived,
 		"depth2_transitions_of_state_specific_rules": dynamicJobs,
-		"language_scenario_runs":                     e.langRuns,
-		"debug_scenario_runs":                        e.dbgRuns,
+		"pipeline_layer":         pipe,
+		"language_scenario_runs": e.langRuns,
+		"debug_scenario_runs":    e.dbgRuns,
 		"explanation": "every transition = YAML veneers loader + rewrite.Rewriter.ApplyTo on builders freshly derived by BuilderGenerator.FromAST; " +
 			"a sequence is ONE rewriter whose single-rule files are spread over the `all` and `go` languages so that ApplyTo's order (all: builders, options; go: builders, options) is the order of the sequence; " +
 			"states are deduplicated on the canonical rendering of the builders (plus the kind of the last rule)",
@@ -776,6 +802,13 @@ func replay(e *explorer, seeds []*Seed) int {
 			seed = s
 		}
 	}
+	if base, lang, ok := strings.Cut(d.Seed, "@"); ok {
+		for _, s := range seeds {
+			if s.Name == base {
+				seed = deriveSeed(s, lang, 500)
+			}
+		}
+	}
 	if seed == nil {
 		vx.Fatalf("replay: unknown seed %q", d.Seed)
 	}
@@ -794,7 +827,7 @@ func replay(e *explorer, seeds []*Seed) int {
 		seq = append(seq, rule)
 		post := apply(seed, seq[:i+1], nil, "go", false)
 		langs, _ := phases(seq[:i+1])
-		fmt.Printf("--- rule %d (file language %s)\n%s", i+1, langs[i], seq[i].yaml[langs[i]])
+		fmt.Printf("--- rule %d (file language %s)\n%s", i+1, langs[i], seq[i].text(langs[i]))
 		found := e.judge(seed, pre, post)
 		fmt.Printf("    outcome: err=%q panic=%q builders=%d changed=%v\n", post.Err, post.Panic, len(post.Builders), post.Hash != pre.Hash)
 		for _, f := range found {
@@ -815,6 +848,17 @@ func replay(e *explorer, seeds []*Seed) int {
 		for _, f := range e.r.Frontier() {
 			if f.Kind == kind {
 				again = true
+			}
+		}
+	}
+	if strings.HasPrefix(kind, "pipeline:") && len(seq) == 1 && seed.Base != nil {
+		st := pipeStats{PerLang: map[string]int{}}
+		var mu sync.Mutex
+		e.comparePipeline(seed, seq[0], apply(seed, seq, nil, seed.Lang, false), &st, &mu)
+		for _, f := range e.r.Frontier() {
+			if f.Kind == kind {
+				again = true
+				fmt.Println("    VIOLATED:", f.Kind, "::", f.What)
 			}
 		}
 	}
